@@ -186,8 +186,8 @@ theorem insert_succ {e : Entries} (h : Inv e) (k v : Bytes) (fuel : Nat) :
 /-- The errors `Entries.insert` can return, and when. -/
 def InsErr (e : Entries) (k v : Bytes) (fuel : Nat) (t : Trap) : Prop :=
   (t = .keyTooLong ∧ k.length > u32Max) ∨ (t = .valTooLong ∧ v.length > u32Max) ∨
-  (t = .arith ∧ (fuel = 0 ∨ e.bufLen * 2 ^ (fuel - 1) < e.used + entrySize k v ∨
-                 2 ^ 62 < e.used + entrySize k v))
+  (t = .arith ∧ (fuel = 0 ∨ (e.bufLen < e.used + entrySize k v ∧
+      (e.bufLen * 2 ^ (fuel - 1) < e.used + entrySize k v ∨ 2 ^ 62 < e.used + entrySize k v))))
 
 /-- Complete description of `Entries.insert` under the invariant: either it succeeds after the
     least number `j` of doublings that makes the entry fit, storing exactly that entry and emitting
@@ -215,7 +215,7 @@ theorem insert_spec (fuel : Nat) : ∀ (e : Entries), Inv e → ∀ (k v : Bytes
         .inl rfl⟩
     simp only [hf, if_false]
     by_cases hb : 2 ^ 62 ≤ e.bufLen
-    · exact .inr ⟨.arith, by simp [hb], .inr (.inr ⟨rfl, .inr (.inr (by omega))⟩)⟩
+    · exact .inr ⟨.arith, by simp [hb], .inr (.inr ⟨rfl, .inr ⟨by omega, .inr (by omega)⟩⟩)⟩
     simp only [hb, if_false]
     rcases ih (scale e 1) (h.scale 1) k v with ⟨j, hj, _, _, heq, hfit, hmin⟩ | ⟨t, heq, herr⟩
     · refine .inl ⟨j + 1, by omega, by omega, by omega, ?_, ?_, ?_⟩
@@ -232,9 +232,9 @@ theorem insert_spec (fuel : Nat) : ∀ (e : Entries), Inv e → ∀ (k v : Bytes
       rcases herr with ⟨rfl, hk'⟩ | ⟨rfl, hv'⟩ | ⟨rfl, h0⟩
       · exact absurd hk' hk
       · exact absurd hv' hv
-      · refine .inr (.inr ⟨rfl, .inr ?_⟩)
+      · refine .inr (.inr ⟨rfl, .inr ⟨by omega, ?_⟩⟩)
         simp only [scale_used, scale_bufLen, Nat.pow_one] at h0
-        rcases h0 with rfl | h0 | h0
+        rcases h0 with rfl | ⟨_, h0 | h0⟩
         · left; simp; omega
         · left
           cases fuel with
@@ -266,21 +266,23 @@ theorem insert_ok {e e' : Entries} {k v : Bytes} {fuel : Nat} {ev : List SEvent}
 theorem insert_no_trap {e : Entries} (h : Inv e) (k v : Bytes) (fuel : Nat)
     (hk : k.length ≤ u32Max) (hv : v.length ≤ u32Max)
     (hfuel : e.used + entrySize k v ≤ e.bufLen * 2 ^ (fuel - 1)) (h0 : 0 < fuel)
-    (hsz : e.used + entrySize k v ≤ 2 ^ 62) :
+    (hsz : e.used + entrySize k v ≤ e.bufLen ∨ e.used + entrySize k v ≤ 2 ^ 62) :
     ∃ e' ev, insert e k v fuel = .ok (e', ev) := by
   rcases insert_spec fuel e h k v with ⟨j, _, _, _, heq, _, _⟩ | ⟨t, _, herr⟩
   · exact ⟨_, _, heq⟩
-  · rcases herr with ⟨_, c⟩ | ⟨_, c⟩ | ⟨_, c | c | c⟩ <;> omega
+  · rcases herr with ⟨_, c⟩ | ⟨_, c⟩ | ⟨_, c | ⟨_, c | c⟩⟩ <;> omega
 
 /-- The fuel `64` of `Sorter.insert` is never exhausted. -/
 theorem insert64_no_trap {e : Entries} (h : Inv e) (k v : Bytes)
-    (hk : k.length ≤ u32Max) (hv : v.length ≤ u32Max) (hsz : e.used + entrySize k v ≤ 2 ^ 62) :
+    (hk : k.length ≤ u32Max) (hv : v.length ≤ u32Max)
+    (hsz : e.used + entrySize k v ≤ e.bufLen ∨ e.used + entrySize k v ≤ 2 ^ 62) :
     ∃ e' ev, insert e k v 64 = .ok (e', ev) := by
   refine insert_no_trap h k v 64 hk hv ?_ (by omega) hsz
   have := h.pos
-  calc e.used + entrySize k v ≤ 2 ^ 62 := hsz
-    _ ≤ 16 * 2 ^ (64 - 1) := by decide
-    _ ≤ e.bufLen * 2 ^ (64 - 1) := Nat.mul_le_mul_right _ this
+  have h1 : 16 * 2 ^ (64 - 1) ≤ e.bufLen * 2 ^ (64 - 1) := Nat.mul_le_mul_right _ this
+  have h2 : e.bufLen ≤ e.bufLen * 2 ^ (64 - 1) := Nat.le_mul_of_pos_right _ (Nat.two_pow_pos _)
+  have h3 : (2:Nat) ^ 62 ≤ 16 * 2 ^ (64 - 1) := by decide
+  omega
 
 theorem Grow.inv {e : Entries} {k v : Bytes} {j : Nat} (h : Inv e) (g : Grow e k v j) :
     Inv (push (scale e j) k v) := (h.scale j).push k v g.fit
